@@ -53,6 +53,32 @@ def repo_samples():
     return out
 
 
+# what a half-typed or damaged token looks like: lone delimiters, open literals and comments, foreign characters
+LEXICAL_DAMAGE = ["'", "'a", "'\\", "\"", "\"abc", "\"a\\", "/* open", "@", "`", "\\", "0x", "1e+", "''", "'ab'", "\f", "\r", "??/", "#"]
+
+
+def damaged(rng, hosts, per_host=6):
+    """(name, text, what): a piece of LEXICAL_DAMAGE put at the end of one line (or in the middle of one)
+    of a host program, the host's last line carrying a diagnostic of its own (a blank before the final newline)"""
+    out = []
+    for name, text in hosts:
+        lines = text.rstrip("\n").split("\n")
+        if len(lines) < 3:
+            continue
+        for _ in range(per_host):
+            dmg = rng.choice(LEXICAL_DAMAGE)
+            k = rng.randrange(0, len(lines) - 1)
+            ls = list(lines)
+            if rng.random() < 0.5 or not ls[k]:
+                ls[k] = ls[k] + (" " if ls[k] and rng.random() < 0.5 else "") + dmg
+            else:
+                c = rng.randrange(len(ls[k]))
+                ls[k] = ls[k][:c] + dmg + ls[k][c:]
+            ls[-1] = ls[-1] + " "
+            out.append((name, "\n".join(ls) + "\n", f"{dmg!r}@line{k + 1}"))
+    return out
+
+
 LEXICAL_SNIPPETS = [
     "int\tmain(void)\n{\n\treturn ('\\q\n);\n}\n",
     "char\t*g_s = \"ab\\qcd;\n",
